@@ -29,7 +29,12 @@ def install_monitor():
 
     def mon(self, name, value):
         if MON[0] and id(self) not in FRESH:
-            WRITES.append((type(self).__name__, name))
+            # 'changed': the attribute existed and held another value -- class-level state really moved
+            try:
+                changed = hasattr(self, name) and not (getattr(self, name) == value)
+            except Exception:
+                changed = True
+            WRITES.append((type(self).__name__, name, 'changed' if changed else 'same'))
         object.__setattr__(self, name, value)
     Field.__setattr__ = mon
 
